@@ -367,6 +367,10 @@ FAULTS = {
     "one-surplus-flow-argument": (["start helper 1 2"], "slide"),
     "one-surplus-flow-argument-await": (["await helper(1, 2)"], "slide"),
     "bad-if-condition": (["if 1/0", "  send Never1()"], "slide"),
+    # the error sits in ANOTHER flow's header and is evaluated when that flow is started / finishes on behalf of the victim
+    "faulty-default-of-a-started-flow": (["start helperbad"], "slide"),
+    "faulty-default-of-an-awaited-flow": (["await helperbad"], "slide"),
+    "bad-intent-tag-evaluated-for-a-child-action-flow": (['@meta(bot_intent="{1/0}")', "await actionchild"], "slide"),
     "invalid-regex-pattern": (['match {EV}(p=regex("("))'], "match"),
     "comparison-type-error": (["match {EV}(p=less_than(3))"], "match"),
     # raises when the head *arrives* at the statement (the waiting statement cannot be registered)
@@ -386,10 +390,11 @@ def f_program(fault, pos, vstart):
     decorators = [l for l in lines if l.startswith("@")]
     if decorators:
         # the decorated victim simply finishes after its sequence (that is when the tag is evaluated)
-        victim = "\n".join(decorators) + "\nflow victim\n" + ind(seq + ["send VictimBody()"])
+        victim = "\n".join(decorators) + "\nflow victim\n" + ind(seq + [l for l in lines if not l.startswith("@")] + ["send VictimBody()"])
     else:
         victim = "flow victim\n" + ind(seq + lines + ["send VictimAfter()", "match Never()"])
-    helper = "flow helper $a\n  match Never()\n"
+    helper = ("flow helper $a\n  match Never()\n\nflow helperbad $a=1/0\n  match Never()\n\n"
+              "@meta(bot_action=True)\nflow actionchild\n  send ChildRan()\n")
     wrapper = "flow wrapper\n  await victim\n  send WrapperAfter()\n"
     by = '@loop("by")\nflow bystander\n  match E1()\n  send By1()\n  match E2()\n  send By2()\n  match E3()\n  send By3()\n  match Never()\n'
     watch = '@loop("watch")\nflow errwatch\n  match ColangError()\n  send ErrSeen()\n'
@@ -759,7 +764,9 @@ def run(rep, tier):
     maxlen = 3 if tier == "quick" else 4
     ts = [(f, p, s, maxlen) for f in FAULTS for p in POSITIONS for s in VICTIM_STARTS
           # (an activated flow that ends without ever waiting is parked, not finished: its meta tags are not evaluated)
-          if not (f.startswith("bad-meta-tag") and p == "at-start" and s == "activate victim")]
+          if not (f.startswith("bad-meta-tag") and p == "at-start" and s == "activate victim")
+          # (an activated flow that only waits for a child that finishes at once is the recorded non-termination class)
+          and not (f == "bad-intent-tag-evaluated-for-a-child-action-flow" and p == "at-start" and s == "activate victim")]
     agg = {"programs": 0, "histories": 0, "events": 0, "fault_reached": 0, "bystander_reactions": 0}
     for r in par.pmap(fault_task, ts):
         for k in agg:
